@@ -41,16 +41,18 @@ Section Spec.
     exists sig msg, In sig (md_signatures md) /\ sig_keyid_matches key sig /\ signed_message md = Ok msg /\
       (sslib_verify sig_ok sig key msg = Ok true \/ gpg_verify sig_ok now_s sig key msg = Ok true).
 
-  (** declarative authorisation (property C02, as implemented: see DESIGN D2a for the sub-key gap):
-      a link file named after [link_keyid] may count for step [s], verified with key [vk] *)
+  (** declarative authorisation (property C02; the relation with the functionary a link counts for is
+      [ThresholdSpec.counts]): a link file named after [link_keyid] may count for step [s], verified
+      with key [vk] *)
   Inductive authorised (l : layout) (s : step) (link_keyid : str) (vk : json) : Prop :=
   | A_key a :                      (* the authorised key itself, present in the key store *)
       In a (st_pubkeys s) -> lookup a (ly_keys l) = Some vk -> link_keyid = a -> authorised l s link_keyid vk
   | A_subkey_of_master a :         (* a subkey of an authorised master key *)
       In a (st_pubkeys s) -> lookup a (ly_keys l) = Some vk -> In link_keyid (subkey_ids vk) ->
       authorised l s link_keyid vk
-  | A_subkey_alone a m :           (* an individually authorised subkey: verified with its master's key *)
-      In a (st_pubkeys s) -> In (m, vk) (ly_keys l) -> In a (subkey_ids vk) -> link_keyid = a ->
+  | A_subkey_alone a m mk :        (* an individually authorised subkey: verified with that subkey's entry
+                                      of its master key alone - not the master, not a sibling *)
+      In a (st_pubkeys s) -> In (m, mk) (ly_keys l) -> subkey_entry mk a = Some vk -> link_keyid = a ->
       authorised l s link_keyid vk.
 
   (** own events of one layout: the inspections that were started, a prefix of the layout's list *)
